@@ -12,7 +12,8 @@ EXPLANATION = (
     '(LMDB write_txn / create_database / put / delete, SQL INSERT/UPDATE/DELETE/CREATE, MemStore write lock) is reachable from get / '
     'multi_get / iter_metadata / get_keyspace_list of a backend; B4 LMDB: every document write is paired with its metadata write in the '
     'same transaction and commit lies on every path from a write to Ok; B5 SQLite execute_many runs all executions inside one transaction '
-    'committed before Ok. NOT decided: agreement of results with a reference model for arbitrary call sequences; byte fidelity; reopen.')
+    'committed before Ok; B7 the keyspace list is read from the persistent registry the writers register keyspaces in (LMDB registry table; '
+    'SQLite: all statements address the one created table). NOT decided: agreement of results with a reference model for arbitrary call sequences; byte fidelity; reopen.')
 ASSUMPTIONS = ['rusqlite / heed / LMDB behave as documented', 'the storage worker thread executes one task at a time']
 
 SQ = 'datacake_sqlite::'
@@ -256,6 +257,61 @@ def check_B5(ctx, facts):
                'all executions run inside one transaction that is committed before Ok' if good else 'bulk execution is not wrapped in one committed transaction')
 
 
+def check_B7(ctx, facts):
+    """persistent keyspace registry: the reader of the keyspace list reads the very table the writer registers keyspaces in"""
+    cg = CallGraph(facts)
+    # ---- LMDB: the registry database type is the one try_create_dbs (any body that creates databases) puts the keyspace name into
+    reg_types = set()
+    for b in facts.bodies.values():
+        if b.crate != 'datacake_lmdb' or b.d['promoted']:
+            continue
+        if any(cname(t) and cname(t).startswith('heed::') and last_seg(cname(t)) == 'create_database' for _b, t in b.calls()):
+            for _b, t in b.calls():
+                if cname(t) and cname(t).startswith('heed::') and last_seg(cname(t)) == 'put' and 'atabase' in cname(t):
+                    ty = b.local_ty(op_local(t['args'][0]))
+                    if 'Str' in ty:
+                        reg_types.add(ty.replace('&', '').strip())
+    impls = storage_impl_bodies(facts, 'LmdbStorage', 'datacake_lmdb')
+    kl = impls.get('get_keyspace_list')
+    if kl is None or not reg_types:
+        ctx.bad('C17.B7', 'lmdb|anchors', '', 'LMDB keyspace registry writer / get_keyspace_list not found (fail closed)')
+    else:
+        reads = []
+        for rb in cg.reach([kl], bound=6):
+            if rb.crate != 'datacake_lmdb':
+                continue
+            for _b, t in rb.calls():
+                n = cname(t)
+                if n and n.startswith('heed::') and last_seg(n) in ('iter', 'range', 'get', 'first', 'last', 'prefix_iter', 'rev_iter') and 'atabase' in n:
+                    ty = rb.local_ty(op_local(t['args'][0])).replace('&', '').strip()
+                    if ty in reg_types:
+                        reads.append((rb, t))
+        ctx.ob('C17.B7', 'lmdb|list-reads-registry-table', bool(reads), site(reads[0][0], reads[0][1]['cs']) if reads else site(kl),
+               'get_keyspace_list reads the persistent registry table keyspaces are registered in' if reads else
+               'get_keyspace_list does not read the persistent keyspace registry (it answers from process-local state): after closing and '
+               'reopening the database the keyspaces on disk are not listed, so a restarted node rebuilds nothing')
+    # ---- SQLite: one table
+    tables_ = {}
+    create = None
+    for b in facts.bodies.values():
+        if b.crate != 'datacake_sqlite' or b.d['promoted']:
+            continue
+        for _b, _j, s in b.assigns():
+            for o in rv_operands(s['rv']):
+                c = op_const(o)
+                if c and 'str' in c:
+                    txt = c['str']
+                    m = re.search(r'\b(?:FROM|INTO|TABLE(?:\s+IF\s+NOT\s+EXISTS)?|UPDATE)\s+([A-Za-z_][A-Za-z0-9_]*)', txt, re.I)
+                    if m and re.match(r'\s*(SELECT|INSERT|DELETE|UPDATE|CREATE)', txt, re.I):
+                        tables_.setdefault(m.group(1), []).append(b.name.replace('datacake_sqlite::', ''))
+                        if re.match(r'\s*CREATE', txt, re.I):
+                            create = m.group(1)
+    good = len(tables_) == 1 and create in tables_
+    ctx.ob('C17.B7', 'sqlite|one-table', good, '',
+           'every SQLite statement (%d) addresses the table that setup creates (%s)' % (sum(len(v) for v in tables_.values()), create) if good else
+           'SQLite statements address different tables: %s (created: %s)' % ({k: len(v) for k, v in tables_.items()}, create))
+
+
 def check(ctx):
     prod = ctx.facts('prod')
     tu = ctx.facts('testutils')
@@ -264,3 +320,4 @@ def check(ctx):
     check_B3(ctx, prod, tu)
     check_B4(ctx, prod)
     check_B5(ctx, prod)
+    check_B7(ctx, prod)
